@@ -1339,7 +1339,9 @@ fn utf8_decode(slice: &[u8]) -> char {
         code <<= 6;
         code |= (*byte as u32) & 63;
     }
-    unsafe { std::char::from_u32_unchecked(code) }
+    // automata only checks the shape of the sequence, it can still encode surrogates
+    // or values above U+10FFFF which are not valid `char`s
+    char::from_u32(code).unwrap_or(char::REPLACEMENT_CHARACTER)
 }
 
 #[derive(Debug, Clone, Copy)]
